@@ -590,6 +590,18 @@ func paramNamed(fn *ssa.Function, name string) *ssa.Parameter {
 	return nil
 }
 
+// paramAt: the parameter called name, or – if it was renamed – the one at its recorded position
+// (receiver counted as position 0).
+func paramAt(fn *ssa.Function, name string, idx int) *ssa.Parameter {
+	if p := paramNamed(fn, name); p != nil {
+		return p
+	}
+	if idx >= 0 && idx < len(fn.Params) {
+		return fn.Params[idx]
+	}
+	return nil
+}
+
 func constantInt(o *types.Const) (int64, bool) {
 	return constantInt64(o.Val())
 }
